@@ -88,6 +88,7 @@ type PathState struct {
 	taintSeen map[*Term]bool
 	synthNow  uint64
 	syncMaps  map[*Value]*Map
+	timeCodec map[*Term]*timeCodecEntry
 }
 
 func newPathState() *PathState {
